@@ -184,7 +184,7 @@ fn prepare<G: Group>(sc: &Scenario, idx: usize, st: &mut RunStats, rng: &mut Sim
 }
 
 fn odd_member<G: Group>(sc: &Scenario, what: &Odd, rng: &mut SimRng) -> Option<(Context, RangeStatement<G>, RangeProof<G>)> {
-    let w = WitnessSpec { values: vec![1], promises: vec![None], blind_seed: rng.next_u64(), seed_nonce: None };
+    let w = WitnessSpec { values: vec![1], promises: vec![None], blind_seed: rng.next_u64(), seed_nonce: None, zero_blind: vec![] };
     let ctx = Context { label: 1, extra: None };
     let (bits, ext) = match what {
         Odd::Bits => (if sc.bits == 64 { 32 } else { sc.bits * 2 }, sc.ext),
@@ -276,6 +276,13 @@ fn run<G: Group>(sc: &Scenario, st: &mut RunStats) -> Vec<Violation> {
                 }
                 if k > 1 {
                     st.fault("batched");
+                }
+                if members.windows(2).any(|w| {
+                    w[0] != w[1]
+                        && sc.pool[w[0]].rng_seed == sc.pool[w[1]].rng_seed
+                        && sc.pool[w[0]].defect.is_some() != sc.pool[w[1]].defect.is_some()
+                }) {
+                    st.probe("honest_message_next_to_defective_twin");
                 }
                 if n_invalid > 0 {
                     st.probe("batch_with_invalid_member");
@@ -383,6 +390,9 @@ fn run<G: Group>(sc: &Scenario, st: &mut RunStats) -> Vec<Violation> {
                 let r = verify::<G>(&ctxs, &sts, &prs, action_from(*action));
                 st.evals += 1;
                 st.fault("shape_length_mismatch");
+                if *transcripts.min(statements).min(proofs) >= 256 {
+                    st.probe("length_mismatch_at_chunk_boundary");
+                }
                 st.event(format!("op{} lengths ({},{},{}) -> {}", oi, transcripts, statements, proofs, render_verify(&r)));
                 if !is_err(&r) {
                     out.push(Violation::new(
@@ -499,6 +509,7 @@ impl Check for C03 {
         let ext = if rng.chance(1, 2) { 1 } else { rng.range(1, 6) as usize };
         let n_pool = rng.range(6, 24) as usize;
         let mut pool = Vec::new();
+        let mut twins: Vec<(usize, usize)> = Vec::new();
         for i in 0..n_pool {
             let m = *rng.pick(&[1usize, 1, 1, 2, 4]);
             let cap = if rng.chance(1, 3) { m * *rng.pick(&[2usize, 4]) } else { m };
@@ -519,8 +530,18 @@ impl Check for C03 {
             } else {
                 None
             };
-            pool.push(PoolMember { m, cap, wit, ctx: Context::generate(rng), rng_seed: rng.next_u64(), defect });
+            let ctx = Context::generate(rng);
+            let rng_seed = rng.next_u64();
+            // statement-level defects sometimes come with their honest twin (same proof, same
+            // commitments, correct statement and context): duplicates the channel delivers next to
+            // each other
+            if matches!(defect, Some(Defect::WrongContext) | Some(Defect::PromisePlus)) && rng.chance(1, 2) {
+                pool.push(PoolMember { m, cap, wit: wit.clone(), ctx: ctx.clone(), rng_seed, defect: None });
+                twins.push((pool.len() - 1, pool.len()));
+            }
+            pool.push(PoolMember { m, cap, wit, ctx, rng_seed, defect });
         }
+        let n_pool = pool.len();
         let valid: Vec<usize> = (0..n_pool).filter(|i| pool[*i].defect.is_none()).collect();
         let invalid: Vec<usize> = (0..n_pool).filter(|i| pool[*i].defect.is_some()).collect();
         let n_ops = rng.range(10, if tier == Tier::Quick { 24 } else { 40 }) as usize;
@@ -530,6 +551,22 @@ impl Check for C03 {
             let action = rng.usize_below(3);
             match rng.below(12) {
                 0 => ops.push(Op::Empty { action }),
+                1 if rng.chance(1, 3) => {
+                    // length mismatches in which the shorter sequence is an exact multiple of the
+                    // chunk size and the longer one spills into a further chunk
+                    let (t, s_, p) = *rng.pick(&[
+                        (257usize, 257usize, 256usize),
+                        (256, 256, 257),
+                        (257, 256, 256),
+                        (256, 257, 257),
+                        (513, 513, 512),
+                        (512, 512, 600),
+                        (300, 300, 256),
+                        (256, 512, 512),
+                    ]);
+                    let members: Vec<usize> = (0..8).map(|_| *rng.pick(&valid)).collect();
+                    ops.push(Op::Lengths { members, transcripts: t, statements: s_, proofs: p, action });
+                },
                 1 => {
                     let k = rng.range(1, 5) as usize;
                     let pat = *rng.pick(&[(0i64, 0i64, 1i64), (0, 0, -1), (1, 0, 0), (-1, 0, 0), (0, 1, 0), (0, -1, 0), (1, 0, 1), (-1, 0, -1)]);
@@ -572,6 +609,18 @@ impl Check for C03 {
                     }
                     if rng.chance(1, 4) {
                         rng.shuffle(&mut members);
+                    }
+                    // an honest message immediately followed (or preceded) by its defective twin
+                    if !twins.is_empty() && rng.chance(1, 4) {
+                        let (h, d) = *rng.pick(&twins);
+                        let pos = rng.usize_below(members.len() + 1);
+                        if rng.chance(2, 3) {
+                            members.insert(pos, d);
+                            members.insert(pos, h);
+                        } else {
+                            members.insert(pos, h);
+                            members.insert(pos, d);
+                        }
                     }
                     ops.push(Op::Batch { members, action });
                 },
@@ -673,8 +722,10 @@ impl Check for C03 {
             "mixed_aggregation_factors",
             "mixed_capacities",
             "mask_alignment_checked",
+            "honest_message_next_to_defective_twin",
             "shape_empty",
             "shape_length_mismatch",
+            "length_mismatch_at_chunk_boundary",
             "shape_inconsistent_bits",
             "shape_inconsistent_ext",
             "shape_inconsistent_h",
